@@ -573,3 +573,37 @@ func (w *World) writerArgs(cc *ssa.CallCommon, pw *ssa.Function) (vb, off, dirty
 	}
 	return
 }
+
+// traceToCallers: v, a value in fn, is one of fn's formal inputs (a parameter or a field of a parameter bundle): what
+// the callers hand in for it — followed upwards while that is again a formal input of the caller (an exported
+// constructor that packs its parameters into a bundle for an unexported one). Empty when v is not a formal input.
+type tracedArg struct {
+	Val  ssa.Value
+	Site callSite
+}
+
+func (w *World) traceToCallers(fn *ssa.Function, v ssa.Value, depth int) []tracedArg {
+	o := w.Origin(v)
+	var out []tracedArg
+	for _, vp := range vparams(fn) {
+		if vp.Term() != o {
+			continue
+		}
+		for _, cs := range w.callersOf(fn) {
+			a := argOfVParam(cs.Call.Common(), fn, vp)
+			if a == nil {
+				out = append(out, tracedArg{nil, cs})
+				continue
+			}
+			if depth < 3 {
+				if sub := w.traceToCallers(rootFn(cs.Fn), a, depth+1); len(sub) > 0 {
+					out = append(out, sub...)
+					continue
+				}
+			}
+			out = append(out, tracedArg{a, cs})
+		}
+		return out
+	}
+	return nil
+}
